@@ -97,6 +97,10 @@ def replace_gate(gate, macros):
             raise JaqalError(
                 f"Cannot expand {gate.name}: wrong argument count: {len(gate.parameters)} != {len(macro.parameters)}"
             )
+        # An argument the body never uses is dropped by the substitution;
+        # check it while it is still there.
+        for arg in gate.parameters.values():
+            check_argument(arg)
         # Bind by position: the statement may carry parameter names other
         # than the macro's own (e.g. an anonymous definition).
         arguments = dict(
@@ -188,6 +192,21 @@ class GateReplacer(Visitor):
             # A qubit alias declared by a map statement keeps its name
             return NamedQubit(qubit.name, alias_from, alias_index)
         return alias_from[alias_index]
+
+
+def check_argument(arg):
+    """Raise a JaqalError if a qubit argument whose source and index are
+    known does not exist."""
+    if isinstance(arg, NamedQubit):
+        obj = arg
+        while obj is not None:
+            if isinstance(obj, Parameter) or isinstance(
+                getattr(obj, "alias_index", None), Parameter
+            ):
+                # Only known once an enclosing macro is expanded
+                return
+            obj = getattr(obj, "alias_from", None)
+        arg.resolve_qubit()
 
 
 def filter_float(value):
